@@ -1,64 +1,64 @@
 // REPLAY for property C10, harness k_dispatch (unit K-dispatch, engine kani)
 // Failed obligations:
-//   OBL:dispatch.fast_only_one_probe_greedy [C10]  at miniz_oxide/src/deflate/core.rs:3147:13 in function deflate::core::verif_deflate_core::k_dispatch
+//   OBL:dispatch.fast_only_one_probe_greedy [C10]  at miniz_oxide/src/deflate/core.rs:3180:13 in function deflate::core::verif_deflate_core::k_dispatch
 // no-failing-input-found: the verifier reported the failed obligation without a concrete model.
 // Verifier output (tail):
-//   Check 1333: memcmp.pointer_dereference.4
+//   Check 1353: memcmp.pointer_dereference.4
 //   	 - Status: SUCCESS
 //   	 - Description: "dereference failure: dead object"
 //   	 - Location: <builtin-library-memcmp>:27 in function memcmp
 //   
-//   Check 1334: memcmp.pointer_dereference.5
+//   Check 1354: memcmp.pointer_dereference.5
 //   	 - Status: SUCCESS
 //   	 - Description: "dereference failure: pointer outside object bounds"
 //   	 - Location: <builtin-library-memcmp>:27 in function memcmp
 //   
-//   Check 1335: memcmp.pointer_dereference.6
+//   Check 1355: memcmp.pointer_dereference.6
 //   	 - Status: SUCCESS
 //   	 - Description: "dereference failure: invalid integer address"
 //   	 - Location: <builtin-library-memcmp>:27 in function memcmp
 //   
-//   Check 1336: memcmp.pointer_dereference.7
+//   Check 1356: memcmp.pointer_dereference.7
 //   	 - Status: SUCCESS
 //   	 - Description: "dereference failure: pointer NULL"
 //   	 - Location: <builtin-library-memcmp>:27 in function memcmp
 //   
-//   Check 1337: memcmp.pointer_dereference.8
+//   Check 1357: memcmp.pointer_dereference.8
 //   	 - Status: SUCCESS
 //   	 - Description: "dereference failure: pointer invalid"
 //   	 - Location: <builtin-library-memcmp>:27 in function memcmp
 //   
-//   Check 1338: memcmp.pointer_dereference.9
+//   Check 1358: memcmp.pointer_dereference.9
 //   	 - Status: SUCCESS
 //   	 - Description: "dereference failure: deallocated dynamic object"
 //   	 - Location: <builtin-library-memcmp>:27 in function memcmp
 //   
-//   Check 1339: memcmp.pointer_dereference.10
+//   Check 1359: memcmp.pointer_dereference.10
 //   	 - Status: SUCCESS
 //   	 - Description: "dereference failure: dead object"
 //   	 - Location: <builtin-library-memcmp>:27 in function memcmp
 //   
-//   Check 1340: memcmp.pointer_dereference.11
+//   Check 1360: memcmp.pointer_dereference.11
 //   	 - Status: SUCCESS
 //   	 - Description: "dereference failure: pointer outside object bounds"
 //   	 - Location: <builtin-library-memcmp>:27 in function memcmp
 //   
-//   Check 1341: memcmp.pointer_dereference.12
+//   Check 1361: memcmp.pointer_dereference.12
 //   	 - Status: SUCCESS
 //   	 - Description: "dereference failure: invalid integer address"
 //   	 - Location: <builtin-library-memcmp>:27 in function memcmp
 //   
 //   
 //   SUMMARY:
-//    ** 1 of 1334 failed (8 unreachable)
+//    ** 1 of 1354 failed (8 unreachable)
 //   
 //    ** 7 of 7 cover properties satisfied
 //   
 //   Failed Checks: "OBL:dispatch.fast_only_one_probe_greedy [C10]"
-//    File: "miniz_oxide/src/deflate/core.rs", line 3147, in deflate::core::verif_deflate_core::k_dispatch
+//    File: "miniz_oxide/src/deflate/core.rs", line 3180, in deflate::core::verif_deflate_core::k_dispatch
 //   
 //   VERIFICATION:- FAILED
-//   Verification Time: 88.63633s
+//   Verification Time: 75.99635s
 //   
 //   Manual Harness Summary:
 //   Verification failed for - deflate::core::verif_deflate_core::k_dispatch
